@@ -6,6 +6,7 @@ looks at the implementation.  Expressions are enumerated breadth-first by depth 
 typed domains; ill-typed combinations are never generated.
 """
 
+import collections
 import itertools
 import os
 import re
@@ -105,6 +106,14 @@ class Scratch:
             t.add(os.path.join(root, "dir", "b"), arcname="b")
         self.link = os.path.join(root, "link")
         os.symlink(self.file, self.link)
+        # ".." after a symlink to a directory elsewhere: <root>/dir/up/../a is <root>/empty/../a for
+        # the operating system, i.e. <root>/a (which does not exist) - not <root>/dir/a
+        os.makedirs(os.path.join(root, "deep", "sub"))
+        os.symlink(os.path.join(root, "deep", "sub"), os.path.join(root, "dir", "up"))
+        with open(os.path.join(root, "deep", "a"), "w") as f:
+            f.write("deep a")
+        self.dotdot = os.path.join(root, "dir", "up", "..", "a")
+        self.deep_a = os.path.join(root, "deep", "a")
 
     def cleanup(self):
         import shutil
@@ -118,7 +127,9 @@ def domains(scratch=None):
         STR: ["", "a", "ab", "é\n"],
         BYTES: [b"", b"a\xff", b"a"],
         LIST: [[], [1], [1, 2], [2, 1], [1, 1], (1, 2), (1, 2, 2), [2, 1, 1]],
-        DICT: [{}, {"x": 1}, {"x": 1, "y": 2}, {"y": 1}, {"x": 2}, {"x": 1, "y": 0}, {"z": None}, {"x": 0}, {1: 0, "y": 0, "x": 1}],
+        DICT: [{}, {"x": 1}, {"x": 1, "y": 2}, {"y": 1}, {"x": 2}, {"x": 1, "y": 0}, {"z": None}, {"x": 0}, {1: 0, "y": 0, "x": 1},
+               # dict subclasses that answer for missing keys (__missing__)
+               collections.Counter({"x": 1}), collections.defaultdict(int, {"x": 2})],
         OBJ: [Obj(a=1, b=2), Obj(a=1, b=1), Obj(a=0, b=2)],
         EXC: [_exc_info(ValueError("a")), _exc_info(KeyError("b")), _exc_info(KeyboardInterrupt())],
         CALL: [_ret1, _raise_value, _raise_key, _warn_dep, _warn_two, _warn_twice_same_line, _raise_kbi, _raise_abort],
@@ -127,7 +138,7 @@ def domains(scratch=None):
         STRLIST: [[], ["a", "b"], ["a"]],
     }
     if scratch is not None:
-        d[PATH] = [scratch.missing, scratch.file, scratch.dir, scratch.emptydir, scratch.tar, scratch.link]
+        d[PATH] = [scratch.missing, scratch.file, scratch.dir, scratch.emptydir, scratch.tar, scratch.link, scratch.dotdot]
     return d
 
 
@@ -261,6 +272,8 @@ def leaves(scratch=None):
         add(PATH, "DirContains(['b','a'])", lambda: M.DirContains(["b", "a"]), lambda v: isd(v) and sorted(os.listdir(v)) == ["a", "b"])
         add(PATH, "DirContains([])", lambda: M.DirContains([]), lambda v: isd(v) and os.listdir(v) == [])
         add(PATH, "SamePath(file)", lambda: M.SamePath(s.file), lambda v: os.path.realpath(v) == os.path.realpath(s.file))
+        add(PATH, "SamePath(deep/a)", lambda: M.SamePath(s.deep_a), lambda v: os.path.realpath(v) == os.path.realpath(s.deep_a))
+        add(PATH, "SamePath(dir/a)", lambda: M.SamePath(os.path.join(s.dir, "a")), lambda v: os.path.realpath(v) == os.path.realpath(os.path.join(s.dir, "a")))
         add(PATH, "SamePath(missing)", lambda: M.SamePath(s.missing), lambda v: os.path.realpath(v) == os.path.realpath(s.missing))
     return L
 
